@@ -55,7 +55,13 @@ def crop_ds(ds, r0, r1, c0, c1, keep_coords):
     return out
 
 
-def run_whole_and_crops(ctx, report, gs, label, wide=False):
+def float_order_sensitive(pipe):
+    """zncc costs are not integers: cbca sums them through float32 integral images whose rounding depends on where the
+    accumulation starts (known finding C13-F2)"""
+    return pipe["matching_cost"]["matching_cost_method"] == "zncc" and "aggregation" in pipe
+
+
+def run_whole_and_crops(ctx, report, gs, label, wide=False, force=None):
     rng = random.Random(gs)
     if wide:
         # a strip several internal processing blocks long (100 / 50 pixels) with a large no-data area: a tile starting
@@ -82,6 +88,15 @@ def run_whole_and_crops(ctx, report, gs, label, wide=False):
         hi = lo + rng.choice([1, 2, 3])
         left, right = pl.make_pair(rng, rows, cols, lo, hi, masks=rng.random() < 0.4, smooth=True)
         pipe, rr, rc, cross = gen_local_pipeline(rng)
+        if force == "zncc_cbca":
+            pipe["matching_cost"]["matching_cost_method"] = "zncc"
+            pipe["matching_cost"]["window_size"] = 3
+            if "aggregation" not in pipe:
+                pipe = {"matching_cost": pipe["matching_cost"],
+                        "aggregation": {"aggregation_method": "cbca", "cbca_distance": 3, "cbca_intensity": 20.0},
+                        **{k: v for k, v in pipe.items() if k != "matching_cost"}}
+                rr += 4
+                rc += 4
     case = {"label": label, "pipeline": pipe, "shape": [rows, cols], "disp": [lo, hi], "radius": [rr, rc], "wide": wide}
     try:
         w_l, w_r, _ = pl.run_pipeline(left.copy(deep=True), right.copy(deep=True), pipe)
@@ -123,12 +138,14 @@ def run_whole_and_crops(ctx, report, gs, label, wide=False):
                 a_m, b_m = whole["validity_mask"][r, c], crop["validity_mask"][r - r0, c - c0]
                 if not ((a_d == b_d) or (np.isnan(a_d) and np.isnan(b_d))):
                     half = abs(float(a_d) * 2 % 2) == 1.0 or abs(float(b_d) * 2 % 2) == 1.0
-                    report.fail("crop_eq_whole_disp", "cross_check" if cross else "no_cross_check",
+                    report.fail("crop_eq_whole_disp", "zncc_cbca_float_rounding" if float_order_sensitive(pipe) else ("cross_check" if cross else "no_cross_check"),
                                 dict(case, crop=[r0, r1, c0, c1], keep_coords=keep, pixel=[r, c]),
                                 {"whole": float(a_d), "crop": float(b_d)})
                     return
                 if a_m != b_m:
                     trig = "cross_check" if cross and ((int(a_m) ^ int(b_m)) & 0x300) else "flags"
+                    if float_order_sensitive(pipe):
+                        trig = "zncc_cbca_float_rounding"
                     sub = pipe["matching_cost"]["subpix"]
                     report.fail("crop_eq_whole_flags", f"{trig}:subpix{sub}" if trig == "cross_check" else trig,
                                 dict(case, crop=[r0, r1, c0, c1], keep_coords=keep, pixel=[r, c]),
@@ -152,7 +169,8 @@ def run_whole_and_crops(ctx, report, gs, label, wide=False):
         report.hit("vflip_equivariant")
         for var in ("disparity_map", "validity_mask"):
             if not pl.same_array(whole[var][::-1], flipped[var]):
-                report.fail("vflip_equivariant", var, case, pl.first_diff(whole[var][::-1], flipped[var]))
+                report.fail("vflip_equivariant", "zncc_cbca_float_rounding" if float_order_sensitive(pipe) else var, case,
+                            pl.first_diff(whole[var][::-1], flipped[var]))
                 break
     except ZeroDivisionError:
         pass
@@ -168,7 +186,7 @@ def run(ctx, report, status):
         "plus the vertically flipped pair; non-trivial = at least one cone-interior pixel compared; distinct by (seed, pipeline)"
     )
     for name, case in core.load_corpus(PROP):
-        run_whole_and_crops(ctx, report, case["gen_seed"], "corpus:" + name)
+        run_whole_and_crops(ctx, report, case["gen_seed"], "corpus:" + name, force=case.get("force"))
     for i in range(ctx.n(25, 300)):
         gs = ctx.rng.randrange(1 << 30)
         run_whole_and_crops(ctx, report, gs, f"gen_seed={gs}")
